@@ -228,7 +228,7 @@ func obligationServes(p *Program, prop string, pc *PropConfig, r *FuncResult, o 
 	if hasProp(fprops, prop) {
 		// lock-discipline obligations belong to the properties that are about concurrency / failure atomicity
 		if strings.HasPrefix(o.Kind, "lock.") || o.Kind == "typeinv" {
-			return prop == "C13" || prop == "C08"
+			return prop == "C13" || prop == "C08" || (prop == "C15" && (strings.HasPrefix(o.ID[strings.Index(o.ID, "#")+1:], "lock.leak") || strings.HasPrefix(o.ID[strings.Index(o.ID, "#")+1:], "lock.defer")))
 		}
 		if o.Kind == "gorecover" {
 			return prop == "C07" || prop == "C13"
